@@ -436,6 +436,10 @@ func getterCase(c *Ctx, xo *Opnd) {
 		if xv := xo.buildVariant(1); xv.Acc() != 0 {
 			getterCaseOn(c, xo, xv, " [x.Acc() != Exact]")
 		}
+		// precision is an attribute: the largest one changes nothing
+		xh := *xo
+		xh.Prec = math.MaxUint32
+		getterCaseOn(c, &xh, xh.Build(), " [x.Prec() == MaxPrec]")
 	}
 }
 
@@ -879,6 +883,44 @@ func rawLayers(tier string) []Layer {
 			}
 		},
 	})
+	// R3: long slices whose only non-zero discarded digit sits in one low word, at every position
+	{
+		lens := []int{3, 4, 5, 6, 7, 8, 9, 10, 12, 13, 16, 17, 20}
+		layers = append(layers, Layer{
+			Name:   "R3-sticky-word-position",
+			Units:  len(lens),
+			Bounds: fmt.Sprintf("SetBitsExp of n-word slices (n in %v): top word (last digit even/odd) + rounding word {0, 5·10^18} + zero words with one word in {1, 10^18} at every lower position; receiver precision {19, 20}; 6 modes; receiver pre-states {fresh, -Inf}", lens),
+			Run: func(c *Ctx, u int) {
+				n := lens[u]
+				for pos := 0; pos < n-2; pos++ {
+					for _, sw := range []uint64{1, BW / 10} {
+						for _, rw := range []uint64{0, BW / 2} {
+							for _, last := range []uint64{BW/10 + 2, BW/10 + 3} {
+								raw := make([]uint64, n)
+								raw[n-1], raw[n-2], raw[pos] = last, rw, sw
+								ci := wordsToInt(raw)
+								for _, p := range []uint32{19, 20} {
+									for _, m := range M6 {
+										for _, pre := range []int{preFresh, preNegInf} {
+											if c.Skip() {
+												continue
+											}
+											z := buildPre(pre, p, m)
+											pv, _ := protect(func() { z.SetBitsExp(toWords(raw), 7) })
+											key := func() string {
+												return fmt.Sprintf("SetBitsExp(%s, 7) prec=%d mode=%s pre=%s", wordsKey(raw), p, modeName(m), preNames[pre])
+											}
+											judgeSetter(c, judgeValue, key, z, pv, Val{Form: fFinite, Coef: ci, E10: 7 - int64(n)*DW}, p, m)
+										}
+									}
+								}
+							}
+						}
+					}
+				}
+			},
+		})
+	}
 	// R2: MantExp / SetMantExp inverse
 	{
 		var xs []*Opnd
